@@ -21,10 +21,13 @@ import (
 
 // C20Case is one case of property C20.
 type C20Case struct {
-	Mode  string              `json:"mode"` // key | select | json
-	Key   gen.BS              `json:"key"`
-	Value string              `json:"value"`
-	Other []map[string]gen.BS `json:"other,omitempty"` // labels of the other containers (select mode)
+	Mode string `json:"mode"` // key | select | json
+	// json mode: Before lines of PerLine other keys each go through the same stage first.
+	Before  int                 `json:"before,omitempty"`
+	PerLine int                 `json:"per_line,omitempty"`
+	Key     gen.BS              `json:"key"`
+	Value   string              `json:"value"`
+	Other   []map[string]gen.BS `json:"other,omitempty"` // labels of the other containers (select mode)
 }
 
 var validLabelRe = regexp.MustCompile(`^[A-Za-z_][A-Za-z0-9_]*$`)
@@ -165,8 +168,28 @@ func c20Check(c C20Case) (r evid.Result) {
 		r.NonTrivial = c20NonTrivialKey(k)
 		doc, _ := json.Marshal(map[string]string{k: c.Value})
 		d := &fakedocker.Daemon{}
-		d.Containers = append(d.Containers, dl.Ctr("id0", "c0", nil, []dl.Line{{TS: c20BaseTS, Msg: string(doc)}}))
-		data, err := dl.Eval(d, "{} | json", dl.Params{Start: c20BaseTS - 3600e9, End: c20BaseTS + 3600e9, Step: 1e9, Limit: -1})
+		lines := []dl.Line{{TS: c20BaseTS, Msg: string(doc)}}
+		query := "{} | json"
+		if c.Before > 0 {
+			// The same stage has already seen many lines with many other keys (the mapping of a
+			// key must not depend on what was parsed before); they are filtered out afterwards.
+			lines = nil
+			n := 0
+			for i := 0; i < c.Before; i++ {
+				obj := map[string]string{"filler": "yes"}
+				for j := 0; j < c.PerLine; j++ {
+					obj[fmt.Sprintf("k%d", n)] = "x"
+					n++
+				}
+				filler, _ := json.Marshal(obj)
+				lines = append(lines, dl.Line{TS: c20BaseTS - int64(c.Before-i)*1e6, Msg: string(filler)})
+			}
+			lines = append(lines, dl.Line{TS: c20BaseTS, Msg: string(doc)})
+			query = `{} | json | filler!="yes"`
+			r.Class(n >= 128, "after>=128-other-keys")
+		}
+		d.Containers = append(d.Containers, dl.Ctr("id0", "c0", nil, lines))
+		data, err := dl.Eval(d, query, dl.Params{Start: c20BaseTS - 3600e9, End: c20BaseTS + 3600e9, Step: 1e9, Limit: -1})
 		d.Done()
 		if err != nil {
 			r.Violation = evid.Viol("C20/json-error", "query failed: %v", err)
@@ -225,7 +248,12 @@ func c20Gen(t *rapid.T) C20Case {
 	case "key":
 		return C20Case{Mode: mode, Key: gen.BS(c20GenKey(t, 64, false))}
 	case "json":
-		return C20Case{Mode: mode, Key: gen.BS(c20GenKey(t, 12, true)), Value: c20GenValue(t)}
+		c := C20Case{Mode: mode, Key: gen.BS(c20GenKey(t, 12, true)), Value: c20GenValue(t)}
+		if rapid.IntRange(0, 3).Draw(t, "after-other-lines") == 0 {
+			c.Before = rapid.SampledFrom([]int{1, 2, 10, 40, 70}).Draw(t, "lines-before")
+			c.PerLine = rapid.SampledFrom([]int{1, 5, 30, 150, 300}).Draw(t, "keys-per-line")
+		}
+		return c
 	default:
 		var k string
 		for i := 0; ; i++ {
